@@ -131,8 +131,6 @@ Proof. reflexivity. Qed.
 
 (* ---------------------------------------------------------------- mcmc_step: the order of the block calls *)
 (* the sweep for an arbitrary behaviour [step] of the block methods *)
-Definition run_blocks_with (step : blk -> st -> prog) (bs : list blk) (s : st) : prog :=
-  fold_left (fun p b => bind p (step b)) bs (Ret s).
 Fixpoint run_right (step : blk -> st -> prog) (bs : list blk) (s : st) : prog :=
   match bs with [] => Ret s | b :: r => bind (step b s) (run_right step r) end.
 
@@ -259,3 +257,88 @@ Proof. rewrite src_get_is_model. reflexivity. Qed.
 
 Corollary src_get_rows (M : list (list Qc)) ix : src_get (list Qc) [] M ix = GRet (map (get_r M) ix).
 Proof. rewrite src_get_is_model. reflexivity. Qed.
+
+(* ---------------------------------------------------------------- the scalar Gaussian blocks _W0_step, _V0_step *)
+Lemma pyidx_of_nat n c : pyidx n (Z.of_nat c) = c.
+Proof. unfold pyidx. destruct (Z.ltb_spec (Z.of_nat c) 0); lia. Qed.
+
+Lemma np_store_nat {A} (a : list A) c v : np_store a (Z.of_nat c) v = set_nth c v a.
+Proof. unfold np_store. now rewrite pyidx_of_nat. Qed.
+
+Lemma np_get_nat {A} (z : A) a c : np_get z a (Z.of_nat c) = nth c a z.
+Proof. unfold np_get. now rewrite pyidx_of_nat. Qed.
+
+Lemma nth_set_nth_same {A} (z x : A) : forall a c, (c < length a)%nat -> nth c (set_nth c x a) z = x.
+Proof. induction a as [|y a IH]; intros [|c] H; cbn [length set_nth nth] in *; try lia; [reflexivity | apply IH; lia]. Qed.
+
+Lemma set_nth_length {A} (x : A) : forall a c, length (set_nth c x a) = length a.
+Proof. induction a as [|y a IH]; intros [|c]; cbn [set_nth length]; [reflexivity..|now rewrite IH]. Qed.
+
+Lemma zrange_of_nat n : zrange (Z.of_nat n) = map Z.of_nat (seq 0 n).
+Proof. unfold zrange. now rewrite Nat2Z.id. Qed.
+
+(* a loop that makes exactly one draw per element is the model's sequence of blocks *)
+Lemma fold_is_seq_blocks (I : st -> Prop) (f : st -> Z -> gprog st) (b : nat -> st -> draw * (val -> st)) cs :
+  (forall s c, In c cs -> I s -> geq (f s (Z.of_nat c)) (GDraw (fst (b c s)) (fun v => GRet (snd (b c s) v)))) ->
+  (forall s c v, In c cs -> I s -> I (snd (b c s) v)) ->
+  forall s, I s -> prog_eq (to_prog (prog_fold f (map Z.of_nat cs) s)) (seq_blocks (map (fun c s' => b c s') cs) s).
+Proof.
+  induction cs as [|c cs IH]; intros Hf HI s Hs; cbn [map prog_fold seq_blocks to_prog]; [apply prog_eq_refl|].
+  eapply prog_eq_trans; [apply to_prog_gbind|].
+  eapply prog_eq_trans; [apply bind_cong; [apply to_prog_geq, Hf; [now left | exact Hs] | intros s'; apply prog_eq_refl]|].
+  cbn [to_prog bind]. constructor. intros v.
+  apply IH; [intros; apply Hf; [now right | assumption] | intros; apply HI; [now right | assumption] |].
+  apply HI; [now left | exact Hs].
+Qed.
+
+Lemma resid_is_model d (M : list Qc) old idx :
+  np_vadds (np_vsub (np_gather q0 (d_y d) idx) (np_gather q0 M idx)) old = map (fun i => yi d i - vnth M i + old) idx.
+Proof. unfold np_vadds, np_vsub, np_gather. now rewrite zipw_map, map_map. Qed.
+
+Theorem src_W0_step_is_model g d orc s : length (W0 s) = c_ncl g ->
+  prog_eq (to_prog (src_W0_step g d s)) (step_prog g d orc BW0 s).
+Proof.
+  intros HW. unfold src_W0_step. cbv zeta. cbn [step_prog]. rewrite zrange_of_nat.
+  eapply prog_eq_trans; [apply to_prog_gbind|].
+  eapply prog_eq_trans; [|apply bind_ret_r]. apply bind_cong; [|intros; apply prog_eq_refl].
+  apply (fold_is_seq_blocks (fun s' => length (W0 s') = c_ncl g) _ (fun c s' => block_W0 d s' c)); [| |exact HW].
+  - intros s' c Hin Hs'. assert (Hc : (c < length (W0 s'))%nat) by (apply in_seq in Hin; lia). clear Hin Hs' HW s.
+    cbv beta. unfold block_W0. cbv zeta. rewrite of_nat_eqb0.
+    destruct (positions (Z.of_nat c) (d_cl d)) as [|i cidx] eqn:E; cbn [length fst snd].
+    + unfold draw_normal. cbn [gbind inv_sqrt isq_sq]. constructor. intros v. rewrite np_store_nat. apply geq_refl.
+    + replace (S (length cidx)) with (length (positions (Z.of_nat c) (d_cl d))) by now rewrite E.
+      rewrite <- E. unfold draw_normal. cbn [gbind inv_sqrt isq_sq W0 Mu set_W0 set_Mu prec tau0].
+      rewrite resid_is_model, np_get_nat. unfold qdiv, qmul, qadd, qsub.
+      constructor. intros v. rewrite !np_store_nat, np_get_nat, nth_set_nth_same by exact Hc.
+      apply geq_refl.
+  - intros s' c v _ Hs'. unfold block_W0. destruct (positions _ _); cbn [snd W0 set_W0 set_Mu]; now rewrite set_nth_length.
+Qed.
+
+Lemma sum_of_nat_eqb0 a b : (Z.of_nat a + Z.of_nat b =? 0)%Z = match (a + b)%nat with O => true | S _ => false end.
+Proof. rewrite <- Nat2Z.inj_add. apply of_nat_eqb0. Qed.
+
+(* `if len(idx) == 0: r = [] else: r = f(idx)` is r = f(idx) for an elementwise f *)
+Lemma if_len_nil {X Y} (f : X -> Y) (l : list X) :
+  (if (Z.of_nat (length l) =? 0)%Z then GRet [] else GRet (map f l)) = GRet (map f l).
+Proof. destruct l; reflexivity. Qed.
+
+Theorem src_V0_step_is_model g d orc s : length (V0 s) = c_ndd g ->
+  prog_eq (to_prog (src_V0_step g d s)) (step_prog g d orc BV0 s).
+Proof.
+  intros HV. unfold src_V0_step. cbv zeta. cbn [step_prog]. rewrite zrange_of_nat.
+  eapply prog_eq_trans; [apply to_prog_gbind|].
+  eapply prog_eq_trans; [|apply bind_ret_r]. apply bind_cong; [|intros; apply prog_eq_refl].
+  apply (fold_is_seq_blocks (fun s' => length (V0 s') = c_ndd g) _ (fun m s' => block_V0 d s' m)); [| |exact HV].
+  - intros s' m Hin Hs'. assert (Hm : (m < length (V0 s'))%nat) by (apply in_seq in Hin; lia). clear Hin Hs' HV s.
+    cbv beta. unfold block_V0. cbv zeta. rewrite sum_of_nat_eqb0, <- app_length, !resid_is_model, !if_len_nil.
+    cbn [gbind]. rewrite <- map_app.
+    destruct (positions (Z.of_nat m) (d_dd1 d) ++ positions (Z.of_nat m) (d_dd2 d)) as [|i idx] eqn:E; cbn [length fst snd].
+    + unfold draw_normal. cbn [gbind inv_sqrt isq_sq]. rewrite np_get_nat. unfold qmul.
+      constructor. intros v. rewrite np_store_nat. apply geq_refl.
+    + replace (S (length idx)) with (length (i :: idx)) by reflexivity.
+      unfold draw_normal. cbn [gbind inv_sqrt isq_sq V0 Mu set_V0 set_Mu prec phi0 eta0].
+      rewrite !np_get_nat. unfold qdiv, qmul, qadd, qsub.
+      constructor. intros v. rewrite !np_store_nat, np_get_nat, nth_set_nth_same by exact Hm.
+      apply geq_refl.
+  - intros s' m v _ Hs'. unfold block_V0. cbv zeta. destruct (_ ++ _); cbn [snd V0 set_V0 set_Mu]; now rewrite set_nth_length.
+Qed.
